@@ -123,7 +123,7 @@ def recipe_forward(U: Any, torch: Any, F: Any, prog: fg.Program, mod: fg.IRModul
         elif kd == "matmul":
             out = U.matmul(a[0], P[p["w"]], **c)
         elif kd == "gelu":
-            out = user_gelu(a[0]) if user_gelu else U.gelu(a[0], **c)
+            out = user_gelu(a[0]) if user_gelu else U.gelu(a[0], **c, **({"approximate": "tanh"} if p.get("kw") else {}))
         elif kd == "silu":
             out = U.silu(a[0], **c)
         elif kd == "softmax":
@@ -193,7 +193,7 @@ def run(ctx: Ctx) -> None:
     def gen(i: int) -> fg.Program:
         return fg.gen_program(rng, rng.randint(1, 16), residuals=rng.randint(0, 4), wrappers=True, attention=True,
                               losses=(i % 4 == 0), fan_out=True, embedding=(i % 5 == 0), plain_adds=True,
-                              side_paths=(i % 2 == 0))
+                              side_paths=(i % 2 == 0), kw_tensors=(i % 3 == 1))
 
     # ---------------- call history: an earlier unit_scale() call in this process supplied its own replacement; it must
     #                  hold for that call only (everything below runs after it)
